@@ -83,13 +83,23 @@ def parse_trace(path, d):
 
 
 def one_case(ctx, idx, old, new, nbuf, kill_at=None, fsize=None, delete=False, errinj=None, leftover=None):
+    """one scenario; when strace delivered no event at all for an operation that ran to its end, the observation (not the
+    code) failed: it is repeated"""
+    for attempt in range(3):
+        res = one_case_once(ctx, idx * 10 + attempt, old, new, nbuf, kill_at, fsize, delete, errinj, leftover)
+        if res["events"] or res["killed"] or kill_at is not None or errinj is not None or fsize is not None:
+            return res
+    return res
+
+
+def one_case_once(ctx, idx, old, new, nbuf, kill_at=None, fsize=None, delete=False, errinj=None, leftover=None):
     """Runs one scenario in its own directory. Returns dict with trace events, post-state dump.
     leftover=(syscall, when): first a Save of a 4096-byte value in 3 buffers is killed there (history of an interrupted Save)."""
     d = os.path.join(ctx.work, "fs%d" % idx)
     shutil.rmtree(d, ignore_errors=True)
     os.makedirs(d)
-    key = "8001"
-    other = "c002"
+    key = "18001"     # the two keys differ in bit 16 only (an inbound marker and the outbound record of one packet identifier)
+    other = "8001"
     helper(ctx, "save", d, other, 9, 33, 1)
     if old is not None:
         helper(ctx, "save", d, key, 1, old, 1)
@@ -126,14 +136,20 @@ def judge(ctx, res, old, new, delete, sigs):
     key_state = None
     for l in res["dump"]:
         f = l.split()
-        if f[0] in ("listed", "probe") and f[1] == "8001":
+        if f[0] in ("listed", "probe") and f[1] == "18001":
             key_state = " ".join(f[2:])
         if f[0] == "listed" and (f[2] in ("absent", "loaderr")):
             bad.append(("list-unloadable", "List reports key %s which Load cannot return" % f[1]))
-        if f[0] in ("listed", "probe") and f[1] == "c002" and " ".join(f[2:]) != sigs[("other", 33)]:
-            bad.append(("other-key-disturbed", "an operation on key 8001 changed key c002: %s" % l))
-        if f[0] == "listed" and f[1] not in ("8001", "c002"):
+        if f[0] in ("listed", "probe") and f[1] == "8001" and " ".join(f[2:]) != sigs[("other", 33)]:
+            bad.append(("other-key-disturbed", "an operation on key 18001 changed key 8001: %s" % l))
+        if f[0] == "listed" and f[1] not in ("18001", "8001"):
             bad.append(("stray-listed", "List reports %s" % f[1]))
+    # every key that loads is listed (List is how AdoptSession finds the records)
+    listed = {l.split()[1] for l in res["dump"] if l.startswith("listed ")}
+    for l in res["dump"]:
+        f = l.split()
+        if f[0] == "probe" and f[2] not in ("absent", "loaderr") and f[1] not in listed:
+            bad.append(("not-listed", "key %s loads (%s) but List does not report it" % (f[1], " ".join(f[2:]))))
     allowed = set()
     allowed.add("absent" if old is None else sigs[("old", old)])
     if delete:
@@ -141,7 +157,7 @@ def judge(ctx, res, old, new, delete, sigs):
     else:
         allowed.add(sigs[("new", new)])
     if key_state not in allowed:
-        bad.append(("torn-value", "after the stop key 8001 loads as `%s`; allowed: %s" % (key_state, sorted(allowed))))
+        bad.append(("torn-value", "after the stop key 18001 loads as `%s`; allowed: %s" % (key_state, sorted(allowed))))
     # a successful call must have taken effect; a failed one must have kept the old value
     if not res["killed"]:
         if res["out"] == ["save ok"] and key_state != sigs[("new", new)]:
@@ -196,14 +212,14 @@ def run(ctx):
             res = fu.result()
             stats["sequence_checks"] += 1
             if meta[0] == "del":
-                model = C.run_bin(ctx, "driver", "fs", ["prog del 08001"])
+                model = C.run_bin(ctx, "driver", "fs", ["prog del 18001"])
                 want_ok = ["del ok"]
                 bad = judge(ctx, res, meta[1], 0, True, sigs)
             else:
                 old, new, nbuf = meta
                 step = new // nbuf if nbuf > 1 and new >= nbuf else new
                 lens = [new] if (nbuf <= 1 or new < nbuf) else [step] * (nbuf - 1) + [new - step * (nbuf - 1)]
-                model = C.run_bin(ctx, "driver", "fs", ["prog save 08001 " + ",".join(map(str, lens))])
+                model = C.run_bin(ctx, "driver", "fs", ["prog save 18001 " + ",".join(map(str, lens))])
                 bad = judge(ctx, res, old, new, False, sigs)
                 calib[meta] = (res["k0"], len(res["events"]))
             distinct.add(("seq",) + tuple(meta))
@@ -213,7 +229,7 @@ def run(ctx):
                 d = C.first_diff(res["events"], model)
                 # order of flush and visibility is the property itself
                 ev = res["events"]
-                ren = [i for i, e in enumerate(ev) if e.startswith("rename ") and e.endswith(" 08001")]
+                ren = [i for i, e in enumerate(ev) if e.startswith("rename ") and e.endswith(" 18001")]
                 fs = [i for i, e in enumerate(ev) if e.startswith("fsync ")]
                 wr = [i for i, e in enumerate(ev) if e.startswith("write ")]
                 if meta[0] != "del" and ren and (not fs or fs[0] > ren[0] or (wr and max(wr) > ren[0])):
